@@ -80,6 +80,37 @@ func cmdSelectors(args []string) {
 			emit("name", "cli-exclude", n, listed, listed, runCLI("-excludeNames", padded), true)
 		}
 	}
+	// ---- both name lists at once: a token is judged the same way whatever stands in the other list, and next to source options
+	runCLI2 := func(args ...string) bool {
+		cmd := exec.Command(cli, append(args, "-list-lints-json")...)
+		cmd.Stdout = nil
+		return cmd.Run() == nil
+	}
+	for i, u := range append(append([]string{}, unknownNames...), names[3], names[len(names)-4]) {
+		if u == "" {
+			continue
+		}
+		listed := listedName[u]
+		v1, v2 := names[(7*i+11)%len(names)], names[(13*i+5)%len(names)]
+		if v1 == u || v2 == u || v1 == v2 {
+			continue
+		}
+		_, err := g.Filter(lint.FilterOptions{IncludeNames: []string{v1, v2}, ExcludeNames: []string{u}})
+		emit("name", "lib-exclude-next-to-include", u, listed, listed, err == nil, true)
+		_, err = g.Filter(lint.FilterOptions{IncludeNames: []string{u}, ExcludeNames: []string{v1}})
+		emit("name", "lib-include-next-to-exclude", u, listed, listed, err == nil, true)
+		_, err = g.Filter(lint.FilterOptions{ExcludeNames: []string{v1, u, v2}})
+		emit("name", "lib-exclude-among-valid", u, listed, listed, err == nil, true)
+		_, err = g.Filter(lint.FilterOptions{IncludeNames: []string{v1, u}, IncludeSources: lint.SourceList{lint.RFC5280}})
+		emit("name", "lib-include-next-to-sources", u, listed, listed, err == nil, true)
+		_, err = g.Filter(lint.FilterOptions{ExcludeNames: []string{u}, ExcludeSources: lint.SourceList{lint.Community}})
+		emit("name", "lib-exclude-next-to-sources", u, listed, listed, err == nil, true)
+		if cli != "" {
+			emit("name", "cli-exclude-next-to-include", u, listed, listed, runCLI2("-includeNames", v1+","+v2, "-excludeNames", u), true)
+			emit("name", "cli-include-next-to-exclude", u, listed, listed, runCLI2("-excludeNames", v1, "-includeNames", u), true)
+			emit("name", "cli-exclude-next-to-sources", u, listed, listed, runCLI2("-excludeSources", "Community", "-excludeNames", u), true)
+		}
+	}
 	// ---- sources
 	listedSrc := map[string]bool{}
 	for _, s := range g.Sources() {
